@@ -71,6 +71,12 @@ def generate(seed, tier="quick", mode=None, **kw):
                 lines.append(G.expand(r, r.choice(G.LINES_W), ctx))
             else:
                 lines.append(G.expand(r, r.choice(G.LINES_AS), ctx))
+        for ln in lines:
+            c = r.random()
+            if c < 0.04:
+                ln["eol"] = "\r"
+            elif c < 0.08:
+                ln["eol"] = "\r\n"
         files.append({"path": p, "lines": lines})
     entry = r.choice(["cli", "cli", "files", "file", "io"])
     plan = {"family": NAME, "seed": seed, "mode": mode, "files": files, "dirs": dirs, "secrets": secrets, "opts": o,
